@@ -2,6 +2,14 @@
 from harness import k_api, k_select
 
 
+def _fp_lemma(tier):
+    import dataclasses
+
+    from harness import C02
+
+    return dataclasses.replace(C02.obligation_printer_fp(tier), name="O1.7" + C02.obligation_printer_fp(tier).name[4:])
+
+
 def obligations(tier):
     quick = tier == "quick"
     return [
@@ -11,4 +19,5 @@ def obligations(tier):
         k_select.obligation(tier, {"C01"}, "O1.2a selection logic for ANY association measure (abstract measure values, symbolic crosstab cells and min_freq_mod)", "abstract"),
         k_select.obligation_cont(tier, {"C01"}, "O1.4 ContinuousCarver selection logic for ANY measure value (symbolic target values per modality, real _grouper/_printer)"),
         k_select.obligation(tier, {"C01"}, "O1.2b selection logic with the real chi2-based measures on solver-chosen crosstabs", "real"),
+        _fp_lemma(tier),
     ]
